@@ -111,7 +111,7 @@ static void run_script(rng_t *r,H *h,H *h2,int nops,size_t nbytes,const char *de
     int o=(int)rng_below(r,NOPS); long ret=0; int bs=0; float **pcm;
     ogg_int64_t T=ov_pcm_total(vf,-1); double D=ov_time_total(vf,-1); if(!(D>=0)) D=0;
     ctx_mark("%s",opname[o]);
-    if(vh_trace) fprintf(stderr,"op %d %s | state %d link %d pcm_offset %lld raw %lld\n",i,opname[o],vf->ready_state,vf->current_link,(long long)vf->pcm_offset,(long long)vf->offset);
+    if(vh_trace) fprintf(stderr,"op %d %s | state %d link %d pcm_offset %lld raw %lld\n",i,opname[o],vf->ready_state,vf->current_link,(long long)vf->pcm_offset,(long long)vf->offset); if(vh_trace) fprintf(stderr,"   os: body_fill %ld body_returned %ld lacing_fill %ld lacing_returned %ld lacing_packet %ld serial %ld\n",vf->os.body_fill,vf->os.body_returned,vf->os.lacing_fill,vf->os.lacing_returned,vf->os.lacing_packet,vf->os.serialno);
     switch(o){
     case 0: ret=ov_read_float(vf,&pcm,(int)(rng_chance(r,0.1)?wild_i64(r,5000):rng_range(r,1,5000)),rng_chance(r,0.2)?NULL:&bs);
       if(ret>0){ int ch=ov_info(vf,-1)?ov_info(vf,-1)->channels:0; volatile float acc=0; for(int c=0;c<ch;c++){ acc+=pcm[c][0]; acc+=pcm[c][ret-1]; } (void)acc; } break;
